@@ -241,7 +241,8 @@ def fill(shape, binops, unops, counter):
     if shape is None:
         i = counter[0]
         counter[0] += 1
-        yield ("atom", CURRENT_OPERANDS[0][i % len(CURRENT_OPERANDS[0])])
+        o = CURRENT_OPERANDS[0][i % len(CURRENT_OPERANDS[0])]
+        yield o if isinstance(o, tuple) else ("atom", o)
         return
     if shape[0] == "u":
         start = counter[0]
@@ -306,3 +307,16 @@ def well_formed(node):
     if k == "atom":
         return True
     return all(well_formed(c) for c in node[1:] if isinstance(c, tuple))
+
+
+# leaves that are themselves small expressions: trees over these reach 7-9 operators with 3 skeleton operators
+SUBTREE_LEAVES = [
+    ("cmp", "=", ("atom", "[a]"), ("atom", "1")),
+    ("bin", "%", ("atom", "[b]"), ("atom", "2")),
+    ("cmp", ">", ("atom", "[c]"), ("atom", "2.5")),
+    ("bin", "+", ("atom", "[d]"), ("atom", "1")),
+    ("cmp", "=", ("atom", "'s'"), ("atom", "[e]")),
+    ("bin", "%", ("atom", "[f]"), ("atom", "3")),
+    ("atom", "[g]"),
+    ("bin", "*", ("atom", "2"), ("atom", "[h]")),
+]
